@@ -6,8 +6,10 @@
 //!   rand   <seed> <runs> [shard nshards]          random interleavings, systematic over (size, starts)
 //!   exh    <seed> <len>  e cqe sq0 cq0 flags sqf cqf   all 5^len sequences over {G,F,R,C1,P1}, drain after each
 //!   real   <seed> <ops per ring>            real kernel: rings from setup_io_uring, see real.rs
+//!   mt     <seed> <rings> <kind 0|1|2>        two threads (Miri data-race oracle), see mt.rs
 //!   replay <seed> 0      e cqe sq0 cq0 flags sqf cqf steps   one scripted run with a trace on stderr
 //! flags: bit0 SQPOLL, bit1 SQE128, bit2 CQE32.  steps: comma separated G,F,R,C<k>,P<k>.
+mod mt;
 mod real;
 use rusl::platform::{
     Fd, IoUring, IoUringCompletionQueueEntry, IoUringParamFlags, IoUringSubmissionQueueEntry,
@@ -517,7 +519,13 @@ impl Sim {
                     ));
                 }
                 if u64::from(ret) != pending {
+                    // the return value is the wrapper's only way to tell the caller how many
+                    // entries to pass to io_uring_enter
                     st.flush_ret_ne_pending += 1;
+                    return Err((
+                        "C17/flush/return-not-pending-count".into(),
+                        format!("flush_submission_queue returned {ret}; {pending} published entries are not yet consumed by the kernel (shared tail {ktail}, kernel head {})", self.k_sq_head),
+                    ));
                 }
                 Ok(())
             }
@@ -888,7 +896,7 @@ fn emit_stats(st: &Stats) {
     vh::count("sq_get_none_ring_full", st.gets_none_full);
     vh::count("obs_sq_get_none_with_free_slots", st.gets_none_with_free);
     vh::count("flushes", st.flushes);
-    vh::count("obs_flush_return_ne_pending", st.flush_ret_ne_pending);
+    vh::count("flush_return_ne_pending", st.flush_ret_ne_pending);
     vh::count("kernel_consumed", st.consumed);
     vh::count("obs_kernel_consumed_before_flush", st.consumed_unflushed);
     vh::count("kernel_posted", st.posted);
@@ -1138,6 +1146,11 @@ fn main() {
             mode_rand(a.seed, a.budget, shard, n);
         }
         "real" => real::mode_real(a.seed, a.budget),
+        "mt" => mt::mode_mt(
+            a.seed,
+            a.budget,
+            a.rest.first().and_then(|s| s.parse().ok()).unwrap_or(0),
+        ),
         "exh" => match parse_cfg(&a.rest) {
             Some(cfg) if cfg.valid() => {
                 mode_exh(a.budget as u32, cfg);
